@@ -8,6 +8,7 @@ import os
 import sys
 import z3
 from pyvc.api import Contract, contract
+from contracts._frames import query_frame
 from pyvc.values import Obj, z, is_sym
 from pyvc.frontend import Repo
 
@@ -31,6 +32,7 @@ RANGES = [(1, 1), (1, 2), (2, 2), (1, 3), (2, 3), (3, 3)]
 
 
 @contract(F + "::NGramsMixin._word_ngrams", "C14")
+@query_frame("self")
 class WordNgrams(Contract):
     variants = [(L, S, r) for L in range(0, 5) for S in (None, 1, 2) for r in RANGES if not (S == 2 and L > 3)]
     max_paths = 20000
